@@ -82,7 +82,7 @@ end
 /-! ### `solve_fixed_point_direct` (solvers.py:47-94) -/
 
 section
-variable {K V : Type*} [Field K] [LinearOrder K] [AddCommGroup V]
+variable {K V : Type*} [Field K] [LinearOrder K] [Sub V]
 
 /-- `solve_fixed_point_direct(func, x0, convergence_tol, divergence_tol, max_iters, norm)`:
 ```
